@@ -40,7 +40,7 @@ Fixpoint dec_ops (n : nat) (l : list Z) : list op :=
   end.
 
 Definition decode (inp : list Z) : job * list op :=
-  (init_job (zb (at_ inp 0)) (zb (at_ inp 1)) (at_ inp 2) (zb (at_ inp 3)) (at_ inp 4) (zb (at_ inp 5)) (zb (at_ inp 6)) (at_ inp 7),
+  (init_job (Z.odd (at_ inp 0)) (zb (at_ inp 1)) (at_ inp 2) (zb (at_ inp 3)) (at_ inp 4) (zb (at_ inp 5)) (zb (at_ inp 6)) (at_ inp 7),
    dec_ops (Z.to_nat (at_ inp 8)) (skipn 9 inp)).
 
 (* ---- observations -> integers ---- *)
